@@ -75,6 +75,46 @@ func checkDirAsMap(c *mon.Case, prop string, node ipld.Node, model map[string]ci
 		names = append(names, n)
 	}
 	sort.Strings(names)
+	// an iterator that is started on the cold node, advanced a few steps and then left alone while the
+	// node is used for everything else; it is resumed at the very end
+	var early ipld.MapIterator
+	earlySeen := map[string]int{}
+	c.Guard("MapIterator (started early)", func() {
+		early = node.MapIterator()
+		for i := 0; early != nil && i < 3 && !early.Done(); i++ {
+			if k, _, err := early.Next(); err == nil && k != nil {
+				ks, _ := k.AsString()
+				earlySeen[ks]++
+			}
+		}
+	})
+	defer func() {
+		if early == nil {
+			return
+		}
+		c.Guard("MapIterator (resumed late)", func() {
+			for i := 0; !early.Done() && i < len(model)+16; i++ {
+				k, v, err := early.Next()
+				if err != nil {
+					c.Violation(prop+"|iter-error", "an iterator started before and resumed after all other use of the node: Next: %v", err)
+					return
+				}
+				ks, _ := k.AsString()
+				if got, e := asCid(v); e != nil || !got.Equals(model[ks]) {
+					c.Violation(prop+"|iter-wrong-link", "an iterator resumed after other use of the node yielded %q -> %v", ks, got)
+					return
+				}
+				earlySeen[ks]++
+			}
+			c.Count("resumed_iterators", 1)
+			for _, name := range names {
+				if earlySeen[name] != 1 {
+					c.Violation(prop+"|iter-multiplicity", "an iterator started before and resumed after all other use of the node yielded entry %q %d times", name, earlySeen[name])
+					return
+				}
+			}
+		})
+	}()
 	c.Guard("Length", func() {
 		if l := node.Length(); l != int64(len(model)) {
 			c.Violation(prop+"|length", "Length() = %d, model has %d entries", l, len(model))
